@@ -1,6 +1,96 @@
-"""Thorough tier additions: checker self-tests.  Their outcome describes the checker, never the tree under
-test, and does not change the exit status."""
+"""Thorough tier additions: the checker is run on scratch copies of the tree with one change applied each -
+reverted fix: commits and the seeded changes under /verif/seeded must make the property's rule fire, the
+behaviour-preserving variants under /verif/selftest/benign must leave every rule silent.  The outcome describes the
+checker, is written into the evidence and printed as SELFTEST lines, and never changes the exit status (which
+reflects only the tree under test).  A patch that no longer applies to the tree under test is reported as skipped."""
+import json, os, re, shutil, subprocess, sys, tempfile
+
+VERIF = os.path.dirname(os.path.dirname(os.path.abspath(__file__)))
+
+
+def sh(cmd, cwd=None):
+    p = subprocess.run(cmd, shell=True, cwd=cwd, stdout=subprocess.PIPE, stderr=subprocess.STDOUT, text=True)
+    return p.returncode, p.stdout
+
+
+def make_scratch(repo):
+    d = tempfile.mkdtemp(prefix="rml-selftest.")
+    # a copy of the working tree without build output
+    sh("rsync -a --exclude target --exclude .git %s/ %s/" % (repo, d))
+    sh("git init -q && git add -A && git -c user.email=s@t -c user.name=s commit -qm base", cwd=d)
+    return d
+
+
+def reset(d):
+    sh("git checkout -q -- . && git clean -fdq", cwd=d)
+
+
+def run_check(prop, scratch):
+    env = dict(os.environ)
+    p = subprocess.run([os.path.join(VERIF, "check"), prop, "--repo", scratch, "--no-evidence"], cwd=VERIF, stdout=subprocess.PIPE, stderr=subprocess.STDOUT, text=True, env=env)
+    rules = sorted(set(re.findall(r"^  rule (\S+) at", p.stdout, re.M)))
+    return p.returncode, rules, p.stdout
+
+
+def candidates(prop):
+    out = []
+    bdir = os.path.join(VERIF, "selftest", "break")
+    for f in sorted(os.listdir(bdir)) if os.path.isdir(bdir) else []:
+        if f.endswith(".fixdiff") and ("-" + prop + ".") in f:
+            out.append(("revert", f, os.path.join(bdir, f), True))
+        elif f.endswith(".patch") and f.startswith(prop + "-"):
+            out.append(("break", f, os.path.join(bdir, f), False))
+    sdir = os.path.join(VERIF, "seeded")
+    for d in sorted(os.listdir(sdir)) if os.path.isdir(sdir) else []:
+        if d.startswith(prop + "-") and os.path.exists(os.path.join(sdir, d, "patch.diff")):
+            out.append(("seeded", d, os.path.join(sdir, d, "patch.diff"), False))
+    return out
+
+
+def benign():
+    bdir = os.path.join(VERIF, "selftest", "benign")
+    return [(f, os.path.join(bdir, f)) for f in sorted(os.listdir(bdir))] if os.path.isdir(bdir) else []
 
 
 def run(props, repo, env):
-    print("SELFTEST: (thorough-tier self-tests are run by tools/selftest.py; see DESIGN.md section 7)")
+    scratch = make_scratch(repo)
+    try:
+        for prop in props:
+            res = {"fired": [], "missed": [], "silent": [], "false_alarms": [], "skipped": []}
+            for kind, name, path, reverse in candidates(prop):
+                reset(scratch)
+                rc, out = sh("git apply %s %s" % ("-R" if reverse else "", path), cwd=scratch)
+                if rc != 0:
+                    res["skipped"].append("%s:%s (does not apply to this tree)" % (kind, name))
+                    print("SELFTEST-SKIPPED property=%s %s:%s" % (prop, kind, name))
+                    continue
+                rc, rules, _ = run_check(prop, scratch)
+                if rc == 1 and rules:
+                    res["fired"].append({"change": "%s:%s" % (kind, name), "rules": rules})
+                    print("SELFTEST-FIRED property=%s %s:%s rules=%s" % (prop, kind, name, ",".join(rules)))
+                else:
+                    res["missed"].append("%s:%s" % (kind, name))
+                    print("SELFTEST-MISSED property=%s %s:%s (the checker did not report this change)" % (prop, kind, name))
+            for name, path in benign():
+                reset(scratch)
+                rc, out = sh("git apply %s" % path, cwd=scratch)
+                if rc != 0:
+                    res["skipped"].append("benign:%s (does not apply to this tree)" % name)
+                    continue
+                rc, rules, _ = run_check(prop, scratch)
+                if rc == 0:
+                    res["silent"].append(name)
+                else:
+                    res["false_alarms"].append({"change": name, "rules": rules})
+                    print("SELFTEST-FALSE-ALARM property=%s benign:%s rules=%s" % (prop, name, ",".join(rules)))
+            print("SELFTEST property=%s fired=%d missed=%d benign-silent=%d false-alarms=%d skipped=%d" % (
+                prop, len(res["fired"]), len(res["missed"]), len(res["silent"]), len(res["false_alarms"]), len(res["skipped"])))
+            ev_path = os.path.join(VERIF, "evidence", "%s.json" % prop)
+            try:
+                ev = json.load(open(ev_path))
+                ev["coverage"]["selftest"] = res
+                json.dump(ev, open(ev_path, "w"), indent=1, default=str)
+            except Exception as e:
+                print("SELFTEST: could not record results in %s: %s" % (ev_path, e))
+    finally:
+        shutil.rmtree(scratch, ignore_errors=True)
